@@ -9,7 +9,7 @@ from vf.fixtures import CompA, CompB, CompC, CompD, CompF, check, expect_raises,
 PROPERTY = "C20"
 BUDGET = {"quick": 2000, "thorough": 5000}
 RULE = ("A fresh class tree per case (2-7 classes created with type() under Agent / Environment / SpaceWorld: siblings, "
-        "2-3 levels); in ~25% of cases the shared Agent and Environment classes are mutated too (restored afterwards). "
+        "2-3 levels; further subclasses are created MID-history, after their ancestors were modified); in ~25% of cases the shared Agent and Environment classes are mutated too (restored afterwards). "
         "History (1-30 ops) of add/remove_class_component, Cls.tag = v, instance creation with/without explicit tag "
         "(environment classes through their own constructors), instance-level add_component, incl. duplicate attach and "
         "absent detach. Oracle = per-class component map + default tag model; after EVERY op EVERY class (incl. the "
@@ -141,6 +141,16 @@ def _run(case, model):
                 tag_changed.add(ci)
                 class_change_with_relatives |= relatives(ci)
             tags[ci] = v
+        elif kind == "subclass":
+            if len(classes) >= 12:
+                continue
+            classes.append(type(f"L{len(classes)}", (cls,), {}))       # a class defined AFTER its ancestors were modified
+            ni = len(classes) - 1
+            parents[ni] = ci
+            comps[ni] = {}
+            tags[ni] = 0
+            targets.append(ni)
+            labels.add("late-subclass" + ("-of-modified" if (comps[ci] or tags[ci]) else ""))
         elif kind == "new":
             tag = op.get("tag")
             if issubclass(cls, Environment):
@@ -189,6 +199,7 @@ def strategy(tier):
         st.fixed_dictionaries({"op": st.just("new"), "cls": cls, "tag": wone_of(st.none(), st.none(), st.integers(0, 5))}),
         st.fixed_dictionaries({"op": st.just("new"), "cls": cls, "tag": wone_of(st.none(), st.none(), st.integers(0, 5))}),
         st.fixed_dictionaries({"op": st.just("inst_add"), "i": st.integers(0, 9), "t": t}),
+        st.fixed_dictionaries({"op": st.just("subclass"), "cls": cls}),
     )
     return st.fixed_dictionaries({
         "classes": st.lists(wone_of(st.just(-1), st.just(-1), st.integers(0, 9)), min_size=2, max_size=7),
